@@ -220,6 +220,7 @@ static void marathon_case(uint64_t idx)
             for (k = 0; k < n; ++k) { uint64_t p = m.pos + k, b = p / c->bb; if (b != cur) { mara_ks(c, &m, b, ks); cur = b; } exp_[k] = in[k] ^ ks[p % c->bb]; }
             vh_call_begin("ctr_encrypt"); ret = c->ctr_encrypt((op & 1) ? out : in, in, n, &h); vh_call_end();
             ++calls; VH_COUNT("judged_bytes", n);
+            if (vh_def_available()) { vh_check_defined("return-value", &ret, sizeof(ret)); vh_check_defined("output", (op & 1) ? out : in, n); }
             if (ret != 1 || memcmp((op & 1) ? out : in, exp_, n)) {
                 size_t q = 0; const uint8_t *o = (op & 1) ? out : in; vh_sb sd; char key[200];
                 while (q < n && o[q] == exp_[q]) ++q;
